@@ -9,11 +9,11 @@ class C03(Prop):
     pid = "C03"
     check_mod = "C03"
     drivers = [dict(pkg="internal/core", test="TestVerifC03", timeout=600)]
-    n_quick = 400
+    n_quick = 300
     n_thorough = 12000
     shard = 100
     search_factor = 5
-    ready = False
+    ready = True
     rule = ("translator tools/gen/authflows (go/ast over internal/**) lists every call site of the path manager's "
             "FindPathConf/Describe/AddReader/AddPublisher and every stream-level AddReader in the servers and classifies "
             "each as a flow (single authenticated call / FindPathConf only / FindPathConf then SkipAuth attachment with the "
@@ -76,12 +76,21 @@ class C03(Prop):
         nt = json.load(open(notes))
         for k in ("exempt", "unclassified", "rows"):
             nt[k] = nt.get(k) or []
-        bad = [r["id"] + " = " + r["flow"] for r in nt["rows"]
-               if r["flow"].startswith("FSingle") and r["flow"].endswith("true") and r["id"] not in nt["exempt"]]
+        def ok(fl):   # mirror of Model.C03_Auth.flow_ok, for the message only (the verdict is Coq's)
+            w = fl.split()
+            if w[0] == "FFindOnly":
+                return True
+            pub = "true" if w[1] == "KPublisher" else "false"
+            if w[0] == "FSingle":
+                return w[3] == "false" and w[2] == pub
+            return w[2] == pub and w[3] == pub and w[4] == "true" and (w[5] == "true" or pub == "false")
+        bad = [r["id"] + " = " + r["flow"] + " (" + r["note"] + ")" for r in nt["rows"]
+               if not ok(r["flow"]) and r["id"] not in nt["exempt"]]
         two = [r for r in nt["rows"] if r["flow"].startswith("FTwoStep")]
         return ["%d path-manager call sites (%d two-step flows, %d exempt), %d stream-level sites in the servers, "
                 "%d unclassified%s" % (nt["sites"], len(two), len(nt["exempt"]), nt["stream_sites"],
-                                       len(nt["unclassified"]), ("; SkipAuth without flow: " + "; ".join(bad)) if bad else "")]
+                                       len(nt["unclassified"]), ("; NOT a well-formed flow: " + "; ".join(bad)) if bad else "")] + \
+            ["unclassified: " + u for u in nt["unclassified"]]
 
 
 PROP = C03()
